@@ -65,3 +65,22 @@ package channel
 //@   loop 1 invariant len(*channels) == old(len(*channels)) && len(toCreate) <= __ri(0)
 //@   loop 1 invariant forall j int :: 0 <= j && j < len(toCreate) ==> toCreate[j].LocalKey == originalCounterValue + LocalKey(j) + 1 && (toCreate[j].IsIndex ==> toCreate[j].LocalIndex == toCreate[j].LocalKey)
 //@   loop 1 invariant forall k int :: 0 <= k && k < __ri(0) ==> (*channels)[k].LocalKey != 0 && ((*channels)[k].IsIndex ==> (*channels)[k].LocalIndex == (*channels)[k].LocalKey)
+
+//@ # ---- overwrite on create: the channels removed from metadata are the ones removed from the engine
+//@ pure func (c Channel) Key() Key
+//@ pure func (c Channel) Index() Key
+//@ pure func (c Key) StorageKey() ts.ChannelKey
+//@ pure func (c Channel) Storage() ts.Channel
+//@ ignore func (c Channel) Equals() bool
+//@ ignorepkg github.com/synnaxlabs/x/gorp
+//@ ignorepkg github.com/synnaxlabs/synnax/pkg/storage/ts
+//@ ignorepkg github.com/synnaxlabs/cesium
+
+//@ func (s *Service) deleteOverwritten(ctx context.Context, tx gorp.Tx, channels *[]Channel) (err error)
+//@   pragma abstract NewKey
+//@   requires channels != nil
+//@   atcall DeleteChannels len(chs) == len(keysToDelete) && (forall j int :: 0 <= j && j < len(chs) ==> chs[j] == keysToDelete[j].StorageKey())
+//@   modifies *
+//@   loop 0 modifies channels
+//@   loop 0 invariant len(*channels) == old(len(*channels)) && len(storageToDelete) == len(keysToDelete)
+//@   loop 0 invariant forall j int :: 0 <= j && j < len(keysToDelete) ==> storageToDelete[j] == keysToDelete[j].StorageKey()
